@@ -102,11 +102,24 @@ func (r *mxRun) finish(g int, what string) {
 	r.mu.Unlock()
 }
 
+// goKey turns the key number of a script into the Go value handed to Lock/Unlock. Even numbers become ints, odd numbers the
+// STRING that prints like the int of the even number below: two different keys of different dynamic type and equal text. A lock
+// table that confuses them couples unrelated keys.
+func goKey(n int64) interface{} {
+	if n%2 == 0 {
+		return int(n/2 + 1)
+	}
+	return strconv.FormatInt(n/2+1, 10)
+}
+
 func (r *mxRun) keyOf(key interface{}) int {
 	switch k := key.(type) {
 	case int:
-		return k
+		return 2 * (k - 1)
 	case string:
+		if v, err := strconv.Atoi(k); err == nil && v > 0 {
+			return 2*(v-1) + 1
+		}
 		return r.intern(k)
 	}
 	return r.intern(fmt.Sprint(key))
@@ -134,9 +147,13 @@ func (r *mxRun) trace(ev string, key interface{}, locks int) {
 	var k int
 	switch x := key.(type) {
 	case int:
-		k = x
+		k = 2 * (x - 1) // inverse of goKey
 	case string:
-		k = r.internLocked(x)
+		if v, err := strconv.Atoi(x); err == nil && v > 0 {
+			k = 2*(v-1) + 1
+		} else {
+			k = r.internLocked(x)
+		}
 	default:
 		k = r.internLocked(fmt.Sprint(key))
 	}
@@ -387,12 +404,12 @@ func (r *mxRun) runLock(sc *mxScript) {
 				case 'L':
 					w := fmt.Sprintf("L %d %d", g, st.n)
 					r.begin(g, w)
-					m.Lock(int(st.n))
+					m.Lock(goKey(st.n))
 					r.finish(g, w)
 				case 'U', 'X':
 					w := fmt.Sprintf("%c %d %d", st.op, g, st.n)
 					r.begin(g, w)
-					m.Unlock(int(st.n))
+					m.Unlock(goKey(st.n))
 					r.finish(g, w)
 				case 'P':
 					w := fmt.Sprintf("P %d", g)
